@@ -65,6 +65,9 @@ type c09Relay struct {
 	// byParent: the bid depends on the parent hash asked for (value + first byte of the hash; defect per parent)
 	byParent     bool
 	parentDefect map[byte]string
+	// pubOff / signOff: the relay announces the key of relay idx+pubOff and signs with that of relay idx+signOff (a key
+	// rotation: both move on; a bid still signed with the retired key has signOff behind pubOff)
+	pubOff, signOff int
 	// hdrFlip: from the second answer on the relay offers its other payload (header 1 <-> 2)
 	hdrFlip bool
 	// perSlot: the bid carries the timestamp of the slot asked for (long runs over many slots; C20)
@@ -136,8 +139,8 @@ func (r *c09Relay) bid(value int64) *builderspec.VersionedSignedBuilderBid {
 }
 
 func (r *c09Relay) bidAs(defect string, value int64) *builderspec.VersionedSignedBuilderBid {
-	r = &c09Relay{idx: r.idx, defect: defect, bldr: r.bldr, hdr: r.hdr, perSlot: r.perSlot, askedSlot: r.askedSlot}
-	key := fmt.Sprintf("%d/%s/%d/%c/%d", r.idx, r.defect, value, r.bldr, r.hdr)
+	r = &c09Relay{idx: r.idx, defect: defect, bldr: r.bldr, hdr: r.hdr, perSlot: r.perSlot, askedSlot: r.askedSlot, signOff: r.signOff}
+	key := fmt.Sprintf("%d/%s/%d/%c/%d/k%d", r.idx, r.defect, value, r.bldr, r.hdr, r.signOff)
 	if r.perSlot {
 		key += fmt.Sprintf("/slot%d", r.askedSlot)
 	}
@@ -171,7 +174,7 @@ func (r *c09Relay) bidAs(defect string, value int64) *builderspec.VersionedSigne
 	sd := &phase0.SigningData{ObjectRoot: mr, Domain: c09Domain}
 	sr, err := sd.HashTreeRoot()
 	must(err)
-	sk := c09Keys[r.idx]
+	sk := c09Keys[(r.idx+r.signOff)%3]
 	if r.defect == "badsig" || r.defect == "nokey-badsig" {
 		sk = c09Keys[3] // signed by somebody else
 	}
@@ -219,12 +222,12 @@ func (r *c09Relay) Pubkey() *phase0.BLSPubKey {
 	if r.defect == "nokey-badsig" {
 		return nil
 	}
-	k := c09Pubs[r.idx]
+	k := c09Pubs[(r.idx+r.pubOff)%3]
 	return &k
 }
 
 func (r *c09Relay) eligible() bool {
-	return r.defect == "none" || r.defect == "nokey-badsig" || r.defect == "badsig-first-high"
+	return (r.defect == "none" || r.defect == "nokey-badsig" || r.defect == "badsig-first-high") && r.pubOff == r.signOff
 }
 
 func (r *c09Relay) BuilderBid(ctx context.Context, opts *builderapi.BuilderBidOpts) (*builderapi.Response[*builderspec.VersionedSignedBuilderBid], error) {
@@ -280,7 +283,7 @@ func (r *c09Relay) BuilderBid(ctx context.Context, opts *builderapi.BuilderBidOp
 	if r.hdrFlip && call > 0 {
 		rr.hdr = 3 - r.hdr
 	}
-	g := c09Given{at: mc.Now(), eligible: defect == "none" || defect == "nokey-badsig", value: v, bldr: r.bldr, hdr: rr.hdr}
+	g := c09Given{at: mc.Now(), eligible: (defect == "none" || defect == "nokey-badsig") && r.pubOff == r.signOff, value: v, bldr: r.bldr, hdr: rr.hdr}
 	if defect == "belowmin" {
 		g.value = c09Min - 1
 	}
@@ -522,6 +525,40 @@ func c09Units(tier string) []hx.Unit {
 			u.Check = func(r *mc.Result) mc.Verdict { return c09Check(&st, e, r, false) }
 			units = append(units, u)
 		}
+	}
+	// a relay rotates its key between two auctions on one long-lived strategy instance: the second auction judges the
+	// relay's bid by the key then announced (a bid signed with the new key is eligible, one still signed with the
+	// retired key is not)
+	for _, st := range c09Strats() {
+		st := st
+		e := &c09Env{}
+		u := hx.Unit{Name: "C09/" + st.name + "/key-rotation", Cfg: mc.Config{Deviation: true, Horizon: int64(400 * time.Second)}}
+		u.Body = func() {
+			c09Init()
+			util.VerifResetBuilderClients()
+			svc := st.mk()
+			mc.Sleep(int64(time.Duration(c09Slot)*12*time.Second) - mc.Now())
+			// first auction: the relay as it was
+			e1 := &c09Env{cfgKind: "none", given: make([][]c09Given, 1)}
+			r1 := &c09Relay{idx: 0, env: e1, defect: "none", value: 10, bldr: 'Y', hdr: 1}
+			e1.relays = append(e1.relays, r1)
+			util.VerifSetBuilderClient(r1.Address(), r1)
+			if res, err := svc.BuilderBid(context.Background(), c09Slot, phase0.Hash32{9}, phase0.BLSPubKey{1}, c09ProposerConfig(e1), c09BuilderConfigs("none")); err != nil || res == nil || res.WinningParticipation == nil {
+				panic("harness: the first auction has no winner")
+			}
+			// second auction: the relay announces its new key; its bid is signed with the new or still with the old one
+			*e = c09Env{cfgKind: "none", given: make([][]c09Given, 1)}
+			r2 := &c09Relay{idx: 0, env: e, defect: "none", value: 10, bldr: 'Y', hdr: 1, pubOff: 1, signOff: mc.Choose(2)}
+			e.relays = append(e.relays, r2)
+			util.VerifSetBuilderClient(r2.Address(), r2)
+			t0 := mc.Now()
+			e.t0 = t0
+			e.res, e.err = svc.BuilderBid(context.Background(), c09Slot, phase0.Hash32{9}, phase0.BLSPubKey{1}, c09ProposerConfig(e), c09BuilderConfigs("none"))
+			e.t1 = mc.Now() - t0
+			e.done = true
+		}
+		u.Check = func(r *mc.Result) mc.Verdict { return c09Check(&st, e, r, false) }
+		units = append(units, u)
 	}
 	// the repeated strategy: relay 0 improves its own bid with another payload on its second answer (value +3,
 	// other header) after relay 1 has offered the first payload as well (or another one)
